@@ -317,4 +317,64 @@ theorem sys_step_cmd (f : MockFn) (s : Sys) (i : CycIn) (d : Nat)
   intro hg
   rw [h3 hg]
 
+/-! ### `CallTrigger` with several calls -/
+
+/-- what the adapters show in a cycle in which the trigger with entries `es` is awaited -/
+def tout (es : List Entry) (e : TEnv) (evt : Option (List (Option Nat))) : TOut :=
+  { en := fun m => (dataOf es e m).isSome, done := doneOf es e, evt := evt }
+
+theorem step_trig (es : List Entry) (mode : Mode) (rest : List TCmd) (e : TEnv) :
+    TCaller.step ⟨.trig es mode :: rest⟩ e =
+      if fires mode (results es e) then (⟨rest⟩, tout es e (some (results es e)))
+      else (⟨.trig es mode :: rest⟩, tout es e none) := by
+  simp only [TCaller.step, TCaller.entries, tout]
+
+theorem run_trig (es : List Entry) (mode : Mode) (rest : List TCmd) (pre : List TEnv) (e0 : TEnv)
+    (post : List TEnv) (hpre : ∀ e ∈ pre, fires mode (results es e) = false)
+    (h0 : fires mode (results es e0) = true) :
+    TCaller.run ⟨.trig es mode :: rest⟩ (pre ++ e0 :: post) =
+      pre.map (fun e => tout es e none) ++ tout es e0 (some (results es e0)) :: TCaller.run ⟨rest⟩ post := by
+  induction pre with
+  | nil => simp [TCaller.run, step_trig, h0]
+  | cons e pre ih =>
+    have he := hpre e List.mem_cons_self
+    simp only [List.cons_append, TCaller.run, step_trig, he, Bool.false_eq_true, ↓reduceIte, List.map_cons,
+      List.cons.injEq, true_and]
+    exact ih (fun x hx => hpre x (List.mem_cons_of_mem _ hx))
+
+theorem run_trig_never (es : List Entry) (mode : Mode) (rest : List TCmd) (env : List TEnv)
+    (h : ∀ e ∈ env, fires mode (results es e) = false) :
+    TCaller.run ⟨.trig es mode :: rest⟩ env = env.map (fun e => tout es e none) := by
+  induction env with
+  | nil => simp [TCaller.run]
+  | cons e env ih =>
+    have he := h e List.mem_cons_self
+    simp only [TCaller.run, step_trig, he, Bool.false_eq_true, ↓reduceIte, List.map_cons, List.cons.injEq, true_and]
+    exact ih (fun x hx => h x (List.mem_cons_of_mem _ hx))
+
+theorem tout_called (es : List Entry) (e : TEnv) (evt : Option (List (Option Nat))) (m d : Nat)
+    (h : callData es m = some d) :
+    (tout es e evt).en m = true ∧ (tout es e evt).done m = e.grant m := by
+  simp [tout, doneOf, dataOf, h]
+
+theorem tout_not_called (es : List Entry) (e : TEnv) (evt : Option (List (Option Nat))) (m : Nat)
+    (h : callData es m = none) :
+    (tout es e evt).en m = (e.ext m).isSome ∧ (tout es e evt).done m = ((e.ext m).isSome && e.grant m) := by
+  simp [tout, doneOf, dataOf, h]
+
+theorem resOf_call (es : List Entry) (e : TEnv) (m d : Nat) :
+    (resOf es e (.call m d) = none ↔ doneOf es e m = false) ∧
+    (doneOf es e m = true → resOf es e (.call m d) = some (e.out m d)) := by
+  cases h : doneOf es e m <;> simp [resOf, h]
+
+theorem resOf_samp (es : List Entry) (e : TEnv) (m : Nat) :
+    (resOf es e (.samp m) = none ↔ doneOf es e m = false) := by
+  cases h : doneOf es e m
+  · simp [resOf, h]
+  · simp only [resOf, h, ↓reduceIte, Bool.true_eq_false, iff_false]
+    simp only [doneOf, Bool.and_eq_true] at h
+    cases hd : dataOf es e m with
+    | none => rw [hd] at h; simp at h
+    | some a => simp
+
 end TxV.Testbench
